@@ -25,6 +25,7 @@ impl<C: Config, Q: Query> Snapshot<C, Q> {
         caller_information: &CallerInformation,
         backward_projection_lock_guard: BackwardProjectionLockGuard<C>,
     ) {
+        crate::verif_pause!("bp.start", Some(self.query_id()));
         // SAFETY: We are reading our own backward edges, which we've already
         // acquired the lock for.
         let backward_edges = unsafe {
@@ -60,6 +61,7 @@ impl<C: Config, Q: Query> Snapshot<C, Q> {
 
             join_set.spawn(async move {
                 for query_id in chunk {
+                    crate::verif_pause!("bp.item", Some(&query_id));
                     let entry =
                         engine.executor_registry.get_executor_entry_by_type_id(
                             &query_id.stable_type_id(),
@@ -98,6 +100,7 @@ impl<C: Config, Q: Query> Snapshot<C, Q> {
             }
         }
 
+        crate::verif_pause!("bp.before_done", Some(self.query_id()));
         self.done_backward_projection(backward_projection_lock_guard).await;
     }
 }
